@@ -66,6 +66,8 @@ contract(f"{FO}::Folder.remove_file", props=["C15"],
          ensures=[("still_consistent", "wf_folder(self)"),
                   ("moved_to_deleted", "implies(old(file.uuid in self.files), file.uuid not in self.files and file.uuid in self.deleted_files and file.deleted)"),
                   ("exactly_one_fewer", "implies(old(file.uuid in self.files), len(self.files) == old(len(self.files)) - 1)"),
+                  # the whole view: every other entry of both maps is exactly as before
+                  ("others_untouched", "same_dict_except(self.files, file.uuid) and same_dict_except(self.deleted_files, file.uuid)"),
                   ("unknown_file_changes_nothing", "implies(not old(file.uuid in self.files), len(self.files) == old(len(self.files)) and len(self.deleted_files) == old(len(self.deleted_files)))")],
          raises={"Exception": "file is None or not isinstance(file, File)"},
          modifies=FO_MOD, allocates=True)
